@@ -49,6 +49,9 @@ def _corpus_specs():
     out.append({'C': 2, 'hw': 4, 'wseed': 13, 'fixed_twice': False, 'blocks': [
         {'br': ['conv1', 'uba', 'id', 'conv3', 'ubf', 'seq', 'ubr', 'pool', 'dw3', 'ubm', 'ub'],
          'use': 'twice-pool', 'gumbel': False, 'hard_ctor': False, 'post': 'conv'}]})
+    # a branch with a torch random function (impure for fx), as winner and as loser, block used twice
+    out.append({'C': 3, 'hw': 4, 'wseed': 15, 'fixed_twice': False, 'blocks': [
+        {'br': ['conv3', 'ubrand', 'id'], 'use': 'twice', 'gumbel': False, 'hard_ctor': False, 'post': 'relu'}]})
     # every kind against Identity, block used twice
     for i, k in enumerate(S.BRANCH_KINDS):
         out.append({'C': 2 + i % 3, 'hw': 4, 'wseed': 100 + i, 'fixed_twice': i % 4 == 0, 'blocks': [
@@ -114,6 +117,7 @@ def _export_and_structure(sn, net, spec, winners, seed_line, snapshot):
         vals = [float(v) for v in c.alpha.detach().tolist()]
         want.append(max(range(len(vals)), key=lambda i: vals[i]))
     rec['want'] = want
+    rec['random_winner'] = any(b['br'][w] in S.IMPURE_INSIDE for b, w in zip(spec['blocks'], want))
     rec['alphas_now'] = [[float(v) for v in c.alpha.detach().tolist()] for _, c in combs]
     if winners is not None and want != list(winners):
         rec['fail'].append(('generator', 'generator produced winners %s, wanted %s' % (want, winners)))
@@ -137,7 +141,14 @@ def _export_and_structure(sn, net, spec, winners, seed_line, snapshot):
         left = sorted({int(n[len(parent) + len('.sn_branches.'):].split('.')[0]) for n in names
                        if n.startswith(parent + '.sn_branches.')})
         if left != [w]:
-            rec['fail'].append(('branches-left', 'block %s keeps branches %s, arg-max is %d' % (parent, left, w)))
+            extra = [j for j in left if j != w]
+            kinds = spec['blocks'][bi]['br']
+            if w in left and extra and all(j < len(kinds) and kinds[j] in S.IMPURE_INSIDE for j in extra):
+                rec['fail'].append(('impure-loser-left', 'block %s: layers of the discarded branches %s, which contain '
+                                    'a torch random function, are still in the exported network (arg-max is %d): '
+                                    'fx dead-code elimination keeps impure ops and what feeds them' % (parent, extra, w)))
+            else:
+                rec['fail'].append(('branches-left', 'block %s keeps branches %s, arg-max is %d' % (parent, left, w)))
         if cname in names:
             rec['fail'].append(('combiner-left', 'combiner %s still in the exported module tree' % cname))
     if any(isinstance(m, SuperNetCombiner) for m in e.modules()):
@@ -173,6 +184,8 @@ def _compare_output(rec, y, x):
     e = rec.pop('_e', None)
     if e is None:
         return
+    if rec.get('random_winner'):
+        return                              # the output is a random variable: only the structure is judged
     try:
         with torch.no_grad():
             y2 = e.eval()(x)
@@ -424,6 +437,8 @@ def _work(item):
 
 # ----------------------------------------------------------------------------- verdicts
 def _finding_key(spec, winners, kind, hist=None):
+    if kind == 'impure-loser-left':
+        return 'C03:export:discarded-branch-with-impure-op-survives'
     if hist is not None:
         return 'C03:export:%s:%s' % (hist_class(hist), kind)
     if kind in ('raises', 'exported-forward-raises'):
@@ -539,6 +554,13 @@ def run(chk):
                 'since the last write of alpha; every export is checked against the arg-max current at that '
                 'time; the hard-selection reference outputs are computed AFTER the last export(). non-trivial '
                 'history = no forward since the last write, an earlier export, or a training-mode forward')
+    chk.assumptions.append('leaf ops are pure functions of the VALUES of their inputs (the SSA carrier): no in-place '
+                           'op on a tensor that is read elsewhere, no dependence on aliasing or memory layout. Outside '
+                           'it (clean-tree observations): nn.Identity winning + an in-place layer after the block + the '
+                           'block input reused (the combiner returns a fresh tensor, the exported network the block '
+                           'input itself); a winner returning a non-contiguous tensor + .view() outside; an in-place op '
+                           'at the head of a discarded branch; 0*inf. The exported network is then still the selected '
+                           'architecture as PyTorch evaluates it when written by hand')
     chk.trusted.append('torch.fx tracing / ShapeProp / recompile / delete_all_unused_submodules and the torch '
                        'kernels (exercised by the oracle leg on every case, modelled as SSA substitution)')
     chk.prove()
@@ -580,15 +602,23 @@ def run(chk):
         if rec.get('hist') is not None:
             case.update(hist=rec['hist'], T=1.0)
         m_main = _canon(ans.split(' plain=')[0].split(' hyp=')[0])
+        flags = dict(t.split('=', 1) for t in ans.split(' ') if '=' in t and not t.startswith(('win=', 'nodes=', 'mods=')))
         chk.corr(case, rec['real'], m_main, 'exported node list / module names / winners: real export() vs model')
         if ans.startswith('ok') and not (' plain=1 ' in ans and ' sim=1 ' in ans):
             chk.corr(case, 'plain=1 sim=1', ans[ans.index(' plain=') + 1:],
                      'model self-check: exported graph is plain and simulates the hard evaluation')
-        if not ans.endswith(' hyp=1'):
-            chk.corr(case, 'hyp=1', ans[-6:], 'the traced graph satisfies WF, IOSane and Discipline '
-                                             '(hypotheses of the C03 theorems)')
+        if flags.get('hyp') != '1':
+            chk.corr(case, 'hyp=1', 'hyp=%s' % flags.get('hyp'), 'the traced graph satisfies WF, IOSane and Discipline '
+                                                               '(hypotheses of the C03 theorems)')
         else:
             chk.hist['theorem-hypotheses-hold'] = chk.hist.get('theorem-hypotheses-hold', 0) + 1
+        has_impure = any(k in S.IMPURE_INSIDE for b in spec['blocks'] for k in b['br'])
+        chk.corr(case, 'pure=%d' % (not has_impure), 'pure=%s' % flags.get('pure', '?') if ans.startswith('ok')
+                 else 'pure=%d' % (not has_impure),
+                 'PureLeaves (hypothesis of export_survivors_feed_output / export_keeps_exactly) holds iff no '
+                 'branch contains a torch random function')
+        if rec.get('random_winner'):
+            chk.hist['output-not-compared:random-winner'] = chk.hist.get('output-not-compared:random-winner', 0) + 1
         nontriv = any(w != 0 for w in rec['winners'])
         use = '+'.join(sorted({b['use'] for b in spec['blocks']}))
         if rec.get('hist') is not None:
